@@ -235,7 +235,7 @@ func (p *sparser) parsePostfix() *SExpr {
 		case p.isOp("."):
 			p.next()
 			t := p.next()
-			if t.kind != "id" {
+			if t.kind != "id" && t.kind != "int" {
 				panic(fmt.Sprintf("spec: expected field name at %d", t.pos))
 			}
 			e = &SExpr{Kind: "field", Op: t.text, Args: []*SExpr{e}, Pos: t.pos}
